@@ -58,6 +58,10 @@ CHECKS = {
                 technique="runtime monitoring of per-hop wire bytes and dial log in scripted redirect chains (tunnelled hops observed through a live TLS server); per-hop application of the C07 request oracle, the reference proxy decision and cross-hop equality for 307/308",
                 text="Every body kind is sent through redirect chains of 1..4 hops that change host, port, scheme and proxy applicability; on each hop the bytes received by that hop's peer must be one well-formed request for that hop's URL with the caller's headers, a Host of that hop and framing matching the body written on that hop, the address dialled must follow the proxy decision re-evaluated for that hop, and after only 307/308 the method and body bytes must equal the first hop's. One known finding (multipart bodies are one-shot) is listed in known_findings.jsonl.",
                 note="Method/body after 301/302/303 are not compared. Tunnelled hops are generated in one case out of four (TLS handshake cost)."),
+    "C15": dict(cat="exploration", design="DESIGN.md §3 C15",
+                technique="runtime monitoring of the transmitted body: independent multipart/form-data decoder (boundary taken from the Content-Type on the wire) over generated forms, with a coverage bitset of part-edge offsets modulo the 8 KiB copy buffer",
+                text="Generated forms (0..6 text fields x 0..5 files incl. the empty form, binary data with look-alike delimiter lines incl. the previous request's boundary, sizes sweeping every edge offset mod 8192, UTF-8 names/filenames, MIME parameters, short-write schedules) must build, prepare and send, and the de-chunked body must decode to exactly the multiset of parts added, with a closing delimiter and nothing after it.",
+                note="Part order is not judged. The decoder is the harness's own (unit-tested); content types are compared as parsed Mime values."),
 }
 
 NOT_APPLICABLE = {}
